@@ -573,7 +573,8 @@ public:
 
   static bool is(const char* mode, const char* m) { return !strcmp(mode, m); }
 
-  void gen_ops(GenCtx& g, ThreadProg& tp, int nops, int nslots, const Traits& tr, bool c18, bool c15, bool exit_after_unlink) {
+  void gen_ops(GenCtx& g, ThreadProg& tp, int nops, int nslots, const Traits& tr, bool c18, bool c15, bool exit_after_unlink,
+               bool region_heavy = false) {
     int region_depth = 0;
     for (int i = 0; i < nops; i++) {
       Op o;
@@ -609,6 +610,17 @@ public:
         else if (r < 84) o = Op{OP_SELFASSIGN, s, 0, (int64_t)g.rng.below(2)};
         else if (r < 92) o = Op{g.rng.chance(30) ? OP_RESET2 : OP_RESET, s, 0, 0};
         else o = Op{OP_UNLINK, cell, 0, 0};
+      } else if (region_heavy) {
+        // long-lived region_guards spanning several operations of the other threads (a thread that stays in its
+        // critical region while the epoch / stamp moves on), few cells
+        cell = (int)g.rng.below(2);
+        if (r < 16) o = Op{OP_PUBLISH, cell, 0, 0};
+        else if (r < 40) o = Op{OP_READ, cell, s, (int64_t)g.rng.below(2)};
+        else if (r < 52) o = Op{OP_RESET, s, 0, 0};
+        else if (r < 72) o = Op{OP_UNLINK, cell, 0, 0};
+        else if (r < 86 && region_depth < 2) { o = Op{OP_REGION_ENTER, 0, 0, 0}; region_depth++; }
+        else if (region_depth > 0) { o = Op{OP_REGION_LEAVE, 0, 0, 0}; region_depth--; }
+        else o = Op{OP_READ, cell, s, 1};
       } else {
         if (r < 18) o = Op{OP_PUBLISH, cell, 0, 0};
         else if (r < 21) o = Op{OP_REMARK, cell, 0, 0};
@@ -700,9 +712,11 @@ public:
         p.threads.push_back(tp);
       }
     } else {
-      int nt = g.rng.range(2, g.tier ? 4 : 3);
+      int nt = g.rng.range(2, (g.tier || g.rng.chance(20)) ? 4 : 3);
       p.threads.resize(nt);
-      for (int t = 0; t < nt; t++) gen_ops(g, p.threads[t], g.rng.range(3, maxops), nslots, tr, false, c15, c02 && g.rng.chance(50));
+      bool rh = plain && !tr.hp_like && g.rng.chance(30);
+      for (int t = 0; t < nt; t++)
+        gen_ops(g, p.threads[t], rh ? g.rng.range(6, maxops + 6) : g.rng.range(3, maxops), nslots, tr, false, c15, c02 && g.rng.chance(50), rh);
     }
     g.opt.step_cap = g.tier ? 400000 : 150000;
   }
